@@ -6,7 +6,10 @@
    apply_events (events after the last storage operation). A reordering in the source (checkpoint before the entry, events before
    the checkpoint, oplog flushed before the bitfield …) or a storage Result that is no longer propagated with `?` breaks these
    obligations even if no generated history happens to expose it; a function that was renamed or restructured beyond recognition
-   yields None and the clause is trivially true. *)
+   yields None and the clause is trivially true.
+   This file holds the vocabulary; the obligations are split by the property they matter to (a change fails the gate of no other property):
+   OrderTieStorage.v (C02: order of the storage steps), OrderTieResult.v (C10: every storage Result propagated),
+   OrderTieEvents.v (C13: events sent after the checkpoint, as the last step). *)
 From Coq Require Import List String NArith.
 From HC Require Import SrcOrder.
 Import ListNotations.
@@ -24,23 +27,15 @@ Definition model_order_flush : list string := ["flush_bitfield"; "flush_tree"; "
 
 Ltac tie := vm_compute; first [reflexivity | exact I].
 
-Theorem source_order_is_the_models :
-  tied_order src_order_append_batch model_order_append /\
-  tied_order src_order_clear model_order_clear /\
-  tied_order src_order_verify_and_apply_proof model_order_apply /\
-  tied_order src_order_make_read_only model_order_read_only /\
-  tied_order src_order_flush_bitfield_and_tree_and_oplog model_order_flush.
-Proof. repeat split; tie. Qed.
-
-(* Storage::flush_info(s) and the checkpoint return a Result: in the model a failing storage operation ends the call with the error
-   (Core.emit; Fault.v / CrashClear4.fault_is_cut). In the source every such call must be followed by `.await?`. *)
-Theorem source_propagates_every_storage_result :
-  tied_order src_unpropagated_append_batch 0%N /\
-  tied_order src_unpropagated_clear 0%N /\
-  tied_order src_unpropagated_verify_and_apply_proof 0%N /\
-  tied_order src_unpropagated_make_read_only 0%N /\
-  tied_order src_unpropagated_flush_bitfield_and_tree_and_oplog 0%N.
-Proof. repeat split; tie. Qed.
-
-Print Assumptions source_order_is_the_models.
-Print Assumptions source_propagates_every_storage_result.
+(* the storage-relevant part of an order: everything but the sending of events *)
+Definition storage_steps (l : list string) : list string := filter (fun s => negb (String.eqb s "events")) l.
+(* the position of the events: what follows the first "events" step (must be nothing), and whether "checkpoint" precedes it *)
+Fixpoint after_events (l : list string) : option (list string) :=
+  match l with [] => None | s :: r => if String.eqb s "events" then Some r else after_events r end.
+Fixpoint before_events (l : list string) : list string :=
+  match l with [] => [] | s :: r => if String.eqb s "events" then [] else s :: before_events r end.
+Definition events_last_after_checkpoint (l : list string) : bool :=
+  match after_events l with
+  | Some [] => existsb (String.eqb "checkpoint") (before_events l)
+  | _ => false
+  end.
